@@ -726,6 +726,7 @@ def startAuthorKinds (c : Core) (kind : Str) (attrsD : List (Str × Str)) : Opti
   else if kind == S "url" then some (c, [⟨S "href", true, []⟩])
   else if kind == S "publisher" then some (c, [⟨S "publisher", true, []⟩])      -- `_start_webmaster`: `self.push("publisher", 1)`
   else if kind == S "owner" then some ({ c with inpublisher := true }, [⟨S "publisher", false, []⟩])      -- `_start_itunes_owner`
+  else if kind == S "cloud" then some (putContext c (fset (contextD c) (S "cloud") (.d attrsD)), [])      -- `_start_cloud`: `context["cloud"] = FeedParserDict(attrs_d)`
   else none
 
 /-- where `_end_name` / `_end_email` / `_end_url` put their value (`inpublisher` and `intextinput` are never set inside the model's domain) -/
@@ -759,6 +760,18 @@ def endAuthorKinds (o : Ops) (s0 : MSt) (kind : Str) : Option MSt :=
     -- `_end_itunes_owner`: `self.pop("publisher"); self.inpublisher = 0; self._sync_author_detail("publisher")`
     let s1 := pop o s0 (S "publisher")
     some ⟨putContext { s1.c with inpublisher := false } (syncKey o (contextD s1.c) (S "publisher")), s1.stack⟩
+  else if kind == S "cloud" then
+    -- no `_end_cloud`: `unknown_endtag` falls back to `self.pop("cloud")`
+    some (pop o s0 (S "cloud"))
+  else if kind == S "generator" then
+    -- `_end_generator`: `value = self.pop("generator")`; `generator_detail["name"] = value` when that still is a dict
+    let s1 := pop o s0 (S "generator")
+    let d := contextD s1.c
+    let v := popValue o s0 (S "generator")
+    some ⟨putContext s1.c (match dget d (S "generator_detail") with
+      | some (.d kv) => dset d (S "generator_detail") (.det (lset (kv.map fun p => (p.1, some p.2)) (S "name") v))
+      | some (.det kv) => dset d (S "generator_detail") (.det (lset kv (S "name") v))
+      | _ => d), s1.stack⟩
   else none
 
 def startLG (o : Ops) (c : Core) (kind : Str) (attrsD : List (Str × Str)) : Except Str (Core × List Elem) :=
@@ -767,6 +780,13 @@ def startLG (o : Ops) (c : Core) (kind : Str) (attrsD : List (Str × Str)) : Exc
     .ok ({ c with guidislink := ((sget attrsD (S "ispermalink")).getD (S "true") == S "true") }, [⟨S "id", true, []⟩])
   else if kind == S "category" then .ok (startCategory c attrsD)
   else if kind == S "enclosure" then .ok (startEnclosure c attrsD, [])
+  else if kind == S "generator" then
+    -- `_start_generator`: with attributes, `_enforce_href` and the href resolved; `generator_detail` = the attribute dict; push
+    let a := if attrsD.isEmpty then attrsD else
+      (match sget (enforceHref attrsD) (S "href") with
+       | some h => sset (enforceHref attrsD) (S "href") (o.join c.base.baseuri.toList h)
+       | none => enforceHref attrsD)
+    .ok (putContext c (fset (contextD c) (S "generator_detail") (.d a)), [⟨S "generator", true, []⟩])
   else match startAuthorKinds c kind attrsD with
   | some r => .ok r
   | none => .error (S "unknown stage-4 kind")
